@@ -1,7 +1,7 @@
 #!/bin/bash
 # usage: eval_seed.sh <seed-out-dir> <pkg-dir-for-demo-relative-to-repo> <props,comma,separated> [go test extra flags]
 # Confirms a seeded change in a fresh scratch worktree (compiles, suite passes, demo fails with / passes without),
-# then applies it to /repo, runs the checks, and undoes it straight afterwards.
+# then runs the checks on that worktree (depscheck -repo) and removes it.
 set -u
 out=$1; demodir=$2; props=$3; shift 3; extra="$*"
 export GOFLAGS=-mod=mod GOPROXY=off GOSUMDB=off GOTOOLCHAIN=local
@@ -19,11 +19,8 @@ echo "== demo WITH the change (must fail)"
 rm -f "$wt/$demodir"/*_seeded_test.go
 echo "== existing suite WITH the change (must pass)"
 for m in api/v3 api/v3alpha util/maven util/pypi util/resolve util/semver; do (cd "$wt/$m" && go build ./... && go test -vet=off -count=1 ./... 2>&1 | grep -v "^ok\|no test files"); done
-git -C /repo worktree remove --force "$wt"
-echo "== checks on /repo with the patch applied"
-git -C /repo apply "$out/patch.diff" || exit 5
+echo "== checks on the scratch worktree with the patch applied (-repo; /repo itself is not touched)"
 for p in ${props//,/ }; do
-  /verif/bin/depscheck check -property $p -no-evidence 2>&1 | grep -E "^\S*: \[C|^C[0-9]+ (quick|thorough):" | cut -c1-300 | head -6
+  /verif/bin/depscheck check -property $p -repo "$wt" -no-evidence 2>&1 | sed "s#$wt/##g" | grep -E "^\S*: \[C|^C[0-9]+ (quick|thorough):" | cut -c1-300 | head -6
 done
-git -C /repo checkout -- .
-git -C /repo status --short | head -3
+git -C /repo worktree remove --force "$wt"
